@@ -24,7 +24,8 @@ CONSTANTS Mags,        \* magnitudes (limb sequences) for the integer leaves
           TagsB,       \* primitive tags used on three fixed shapes (thorough: all of 0..MaxPrimTag)
           Depth,       \* 2 or 3
           TopTags,     \* unknown node tags tried at the top level (subset of 11..255)
-          BadPrimTags  \* unknown primitive tags tried (above the protocol maximum)
+          BadPrimTags, \* unknown primitive tags tried (above the protocol maximum)
+          ByteSpan     \* single-byte replacements are tried on the first ByteSpan bytes
 
 \* ---------- primitive table of the protocol (michelson_v1_primitives, through Seoul): tag = index - 1 ----------
 PrimName == <<
@@ -221,7 +222,15 @@ Mutants(n, b) ==
   \cup {<<"toptag", t, SetByte(b, 1, t)>> : t \in TopTags}
   \cup {<<"nodetag", f[2], SetByte(b, f[2], t)>> : f \in {g \in F : g[1] = "node" /\ g[2] > 1}, t \in {11, 255}}
   \cup {<<"primtag", f[2], SetByte(b, f[2], t)>> : f \in {g \in F : g[1] = "prim"}, t \in BadPrimTags}
-  \cup {<<"byte", i, SetByte(b, i, (b[i] + x) % 256)>> : i \in 1..Min2(L, 40), x \in {1, 255, 128}}
+  \cup {<<"byte", i, SetByte(b, i, (b[i] + x) % 256)>> : i \in 1..Min2(L, ByteSpan), x \in {1, 255, 128}}
+\* compact description of a derived byte string m relative to b: m = b[1..lo-1] \o repl \o (last s bytes of b)
+RECURSIVE Pre(_, _, _), Suf(_, _, _, _)
+Pre(b, m, i) == IF i > Len(b) \/ i > Len(m) \/ b[i] # m[i] THEN i ELSE Pre(b, m, i + 1)
+Suf(b, m, s, max) == IF s >= max \/ b[Len(b) - s] # m[Len(m) - s] THEN s ELSE Suf(b, m, s + 1, max)
+Patch(b, m) == LET lo == Pre(b, m, 1)
+                   s == Suf(b, m, 0, Min2(Len(b), Len(m)) - (lo - 1)) IN
+               <<lo, s, SubSeq(m, lo, Len(m) - s)>>
+ApplyPatch(b, q) == SubSeq(b, 1, q[1] - 1) \o q[3] \o SubSeq(b, Len(b) - q[2] + 1, Len(b))
 \* classes whose members the strict decoder must reject whatever the node is
 StrictClasses == {"trunc", "extend", "nonmin", "toptag", "nodetag", "primtag"}
 
@@ -242,10 +251,11 @@ Long(Q) == {<<x, y, x>> : x \in Q, y \in Q} \cup {<<x, x, x, x>> : x \in Q}
 ArgLists(Q) == Lists2(Q) \cup Long(Q)
 one == I(FALSE, <<1>>)
 Q0 == {one, I(TRUE, <<64>>), <<"string", <<97>>>>, <<"bytes", <<>>>>}
-L1 == Leaves \cup {P(t, a, an) : t \in TagsA, a \in ArgLists(Q0), an \in AnnA} \cup {S(a) : a \in ArgLists(Q0)}
+L1 == Leaves \cup {P(7, a, an) : a \in ArgLists(Q0), an \in AnnA} \cup {P(t, a, an) : t \in TagsA, a \in ArgLists(Q0), an \in AnnB}
+      \cup {S(a) : a \in ArgLists(Q0)}
       \cup UNION {{P(t, <<>>, <<>>), P(t, <<one>>, <<A1>>), P(t, <<one, one, one>>, <<>>)} : t \in TagsB}
-Q1 == {one, <<"string", <<97>>>>, P(7, <<>>, <<>>), P(7, <<one>>, <<A1>>), S(<<>>), S(<<one, <<"string", <<97>>>>>>),
-       P(MaxPrimTag, <<one, one, one>>, <<>>), P(0, <<one, one, one>>, <<A1, A2>>)}
+Q1 == {one, P(7, <<>>, <<>>), P(7, <<one>>, <<A1>>), S(<<>>), S(<<one, <<"string", <<97>>>>>>),
+       P(0, <<one, one, one>>, <<A1, A2>>)} \cup (IF Depth >= 3 THEN {<<"string", <<97>>>>, P(MaxPrimTag, <<one, one, one>>, <<>>)} ELSE {})
 L2 == {P(7, a, an) : a \in ArgLists(Q1), an \in AnnB} \cup {S(a) : a \in ArgLists(Q1)}
 Q2 == {one, S(<<S(<<>>)>>), P(7, <<P(7, <<one>>, <<A1>>), S(<<>>)>>, <<>>), P(5, <<S(<<one, I(TRUE, <<0, 1>>)>>)>>, <<A1>>),
        P(9, <<P(7, <<one, one, one>>, <<A2>>)>>, <<>>)}
@@ -261,7 +271,8 @@ None == <<FALSE, <<"none">>, FALSE>>
 Init == node \in Universe /\ bytes = <<>> /\ dec = None /\ muts = {} /\ pc = "encode"
 Encode == pc = "encode" /\ bytes' = Forge(node) /\ pc' = "decode" /\ UNCHANGED <<node, dec, muts>>
 Decode == pc = "decode" /\ dec' = Unforge(bytes) /\ pc' = "mutate" /\ UNCHANGED <<node, bytes, muts>>
-Mutate == pc = "mutate" /\ muts' = {<<m[1], m[2], m[3], Unforge(m[3])>> : m \in Mutants(node, bytes)}
+\* exported as <<class, detail, patch, verdict>>; the byte string itself is ApplyPatch(bytes, patch)
+Mutate == pc = "mutate" /\ muts' = {<<m[1], m[2], Patch(bytes, m[3]), Unforge(m[3])>> : m \in Mutants(node, bytes)}
           /\ pc' = "done" /\ UNCHANGED <<node, bytes, dec>>
 Next == Encode \/ Decode \/ Mutate
 Spec == Init /\ [][Next]_vars
@@ -273,7 +284,9 @@ Injective == pc # "encode" => \A p \in AllForged : p[2] = bytes => p[1] = node
 \* truncated, extended, non-minimal, unknown-tag inputs are rejected
 Strict == pc = "done" => \A m \in muts : m[1] \in StrictClasses => ~m[4][1]
 \* whatever else the decoder accepts is the encoding of what it returns, unless it is one of the relaxed forms
-Canon == pc = "done" => \A m \in muts : m[4][1] => (Forge(m[4][2]) = m[3]) = ~m[4][3]
+Canon == pc = "done" => \A m \in muts : m[4][1] => (Forge(m[4][2]) = ApplyPatch(bytes, m[3])) = ~m[4][3]
+\* the compact export loses nothing
+PatchOK == pc = "mutate" => \A m \in Mutants(node, bytes) : ApplyPatch(bytes, Patch(bytes, m[3])) = m[3]
 \* vacuity guards: the perturbation classes are inhabited, some perturbed inputs are accepted
 TypeOK == pc = "done" => muts # {}
 =============================================================================
